@@ -18,7 +18,7 @@ def commit_raw_checks_before_publish(repo=None):
     body = src[body_open:end]
     # strip comments
     body_nc = re.sub(r"//[^\n]*", "", body)
-    checks = [m.start() for m in re.finditer(r"\.check\(\s*&self\.options\s*\)\s*\?", body_nc)]
+    checks = [m.start() for m in re.finditer(r"\.check\(\s*&self\.options\s*\)", body_nc)]
     pub = [m.start() for m in re.finditer(r"\.copy_to_overlay\s*\(", body_nc)]
     idm = re.search(r"queue\.record_id\s*\+=\s*1", body_nc)
     ok = True
@@ -33,7 +33,17 @@ def commit_raw_checks_before_publish(repo=None):
         return rep
     idx_ok = re.search(r"for\s+\w+\s+in\s+commit\.indexed\.values\(\)\s*\{[^}]*\.check\(", body_nc[:first_pub]) is not None
     bt_ok = re.search(r"for\s+\w+\s+in\s+commit\.btree_indexed\.values\(\)\s*\{[^}]*\.check\(", body_nc[:first_pub]) is not None
-    if len([c for c in checks if c < first_pub]) < 2 or not idx_ok or not bt_ok:
+    before = [c for c in checks if c < first_pub]
+    after = [c for c in checks if c > first_pub]
+    if after and len(before) < 2:
+        # whatever the form of the calls (loop, iterator adapter): some change set is validated only after another one
+        # has been published
+        ok = False
+        why.append("a change set is check()ed only after another change set of the same transaction was published (copy_to_overlay)")
+    elif len(before) >= 2 and not (idx_ok and bt_ok):
+        rep["reason"] = "both kinds of change set are check()ed before the first copy_to_overlay, but not by the two loops this text check knows (validation restructured): undecided by this text check"
+        return rep
+    elif len(before) < 2:
         ok = False
         why.append("not every change set of the transaction is check()ed before the first copy_to_overlay")
     if idm and any(c > idm.start() for c in checks[:2]):
